@@ -4,13 +4,13 @@ use verif_common::Rng;
 pub const C01_RULE: &str = "one scenario per tamper kind (honest advance, unsigned extra ref, moved ref, deleted signed ref, \
 corrupted signature, re-keyed signature, sigrefs naming another repository's identity root, server behind, diverged, unloadable \
 sigrefs commit, sigrefs ref missing, unsigned/moved/diverged namespace rad/id, rad/id without sigrefs for an unknown namespace, dropped \
-rad/ ref, new namespace, honestly deleted or rewound ref) x victim kind (delegate / non-delegate) x (pull / clone) x announced refs_at \
+rad/ ref, new namespace, honestly deleted or rewound ref, deleted ref whose name other namespaces still sign, blob listing rad/sigrefs itself -> older/fork/stored/parent commit) x victim kind (delegate / non-delegate) x (pull / clone) x announced refs_at \
 (none / current tip / older tip / forged commit / blocked or own key / duplicate key), plus random combinations of two tampered \
 namespaces, scopes, block lists, delegate sets, reversed ls-refs order and references listed twice; executed on real git repositories through a real `git upload-pack`; \
 non-trivial = some namespace was tampered or changed; distinct by scenario text";
 
 pub const C02_RULE: &str = "delegate sets of size 1..4, thresholds 1..n, local node delegate or not, blocked delegates, per-delegate \
-sigrefs state offered by the serving peer in {missing, behind, equal, ahead, diverged, invalid, unsigned rad/id, wrong identity root, absent}; stored delegates failing a check in this fetch with the others valid/absent at, below and above the threshold (quick: every (n, threshold, \
+sigrefs state offered by the serving peer in {missing, behind, equal, ahead, diverged, invalid, unsigned rad/id, wrong identity root, blob listing rad/sigrefs -> older/fork, absent}; stored delegates failing a check in this fetch with the others valid/absent at, below and above the threshold (quick: every (n, threshold, \
 local-delegate) with one non-equal delegate and random fills; thorough: full product for n <= 3, random for n = 4), pull and clone, \
 with and without refs_at; executed on real git repositories; non-trivial = at least one delegate is not in state `equal`; distinct by \
 scenario text";
@@ -35,6 +35,9 @@ pub fn scenario(
         }
     };
     let ops: Vec<&str> = ops.iter().flat_map(|s| s.split(';')).filter(|s| !s.is_empty()).collect();
+    // ops on both sides (`B.`) must come first
+    let (b, rest): (Vec<&str>, Vec<&str>) = ops.into_iter().partition(|o| o.starts_with("B."));
+    let ops: Vec<&str> = b.into_iter().chain(rest).collect();
     format!(
         "n={n} d={} t={t} local={local} mode={} scope={scope} blocked={} refsat={refsat} ops={}",
         list(d),
@@ -68,6 +71,16 @@ pub fn tamper_kinds(k: usize, j: usize, d0: usize) -> Vec<(&'static str, String,
         ("ref-deleted-honestly", format!("B.commit.{k}.feature;B.resign.{k};S.del.{k}.feature;S.resign.{k}"), true),
         ("radid-moved-signed", format!("S.commit.{k}.id;S.resign.{k}"), false),
         ("ref-rewound-honestly", format!("B.commit.{k}.feature;B.commit.{k}.feature;B.resign.{k};S.back.{k}.feature;S.resign.{k}"), true),
+        // the same ref NAME exists in several namespaces; `k` honestly deletes its own and re-signs
+        ("ref-deleted-shared-name", format!("B.commit.{j}.feature;B.resign.{j};B.commit.{k}.feature;B.resign.{k};S.del.{k}.feature;S.resign.{k}"), true),
+        ("ref-deleted-shared-name-all", format!("B.commit.0.feature;B.resign.0;B.commit.{j}.feature;B.resign.{j};B.commit.3.feature;B.resign.3;B.commit.{k}.feature;B.resign.{k};S.del.{k}.feature;S.commit.{j}.master;S.resign.{j};S.resign.{k}"), true),
+        ("tag-deleted-shared-name", format!("B.commit.{j}.tag;B.resign.{j};B.commit.{k}.tag;B.resign.{k};S.del.{k}.tag;S.commit.{k}.master;S.resign.{k}"), true),
+        // a validly signed blob that lists refs/rad/sigrefs itself: older than the stored tip, a fork of it,
+        // the stored tip, the offered tip's parent
+        ("blob-lists-sigrefs-older", format!("B.mark.{k}.o;B.commit.{k}.master;B.resign.{k};S.commit.{k}.master;S.signsig.{k}.o"), true),
+        ("blob-lists-sigrefs-fork", format!("B.commit.{k}.feature;B.resign.{k};B.mark.{k}.f;B.rewind.{k};B.commit.{k}.master;B.resign.{k};S.commit.{k}.master;S.signsig.{k}.f"), true),
+        ("blob-lists-sigrefs-stored", format!("S.mark.{k}.o;S.commit.{k}.master;S.resign.{k};S.commit.{k}.master;S.signsig.{k}.o"), false),
+        ("blob-lists-sigrefs-parent", format!("S.commit.{k}.master;S.resign.{k};S.mark.{k}.o;S.commit.{k}.master;S.signsig.{k}.o"), false),
         ("radid-diverged", format!("S.commit.{k}.master;S.resign.{k};S.set.{k}.id.{k}.master"), false),
     ]
 }
@@ -248,6 +261,9 @@ pub fn delegate_state(d: usize, state: &str, other: usize) -> String {
         // ahead, validly signed, but the advertised namespace rad/id is not covered by the signed refs
         "unsigned" => format!("S.del.{d}.id;S.commit.{d}.master;S.resign.{d};S.set.{d}.id.{d}.master"),
         "wrongroot" => format!("S.commit.{d}.master;S.wrongroot.{d};S.resign.{d}"),
+        // validly signed blob that lists rad/sigrefs itself -> a commit OLDER than the stored tip / a FORK of it
+        "selfolder" => format!("B.mark.{d}.o{d};B.commit.{d}.master;B.resign.{d};S.commit.{d}.master;S.signsig.{d}.o{d}"),
+        "selffork" => format!("B.commit.{d}.feature;B.resign.{d};B.mark.{d}.f{d};B.rewind.{d};B.commit.{d}.master;B.resign.{d};S.commit.{d}.master;S.signsig.{d}.f{d}"),
         // neither stored nor served
         "absent" => format!("L.rmns.{d};S.del.{d}.sigrefs"),
         _ => unreachable!(),
@@ -362,7 +378,7 @@ pub fn c02_cases(rng: &mut Rng, quick: bool) -> Vec<String> {
             for local_delegate in [false, true] {
                 let need = if local_delegate { t - 1 } else { t };
                 let lo = if local_delegate { 1 } else { 0 };
-                for (fi, fail) in ["missing", "unsigned", "invalid", "wrongroot"].iter().enumerate() {
+                for (fi, fail) in ["missing", "unsigned", "invalid", "wrongroot", "selfolder", "selffork"].iter().enumerate() {
                     for nfail in 1..=2usize {
                         for good in [need.wrapping_sub(1), need, need + 1] {
                             if good > nd || lo + nfail + good > nd {
@@ -391,7 +407,7 @@ pub fn c02_cases(rng: &mut Rng, quick: bool) -> Vec<String> {
     }
     if quick {
         let pick = (rng.0 % 3) as usize;
-        out.extend(failing.into_iter().enumerate().filter(|(i, (nd, _, nfail, _))| *nfail == 1 && (*nd == 2 || i % 6 == pick)).map(|(_, c)| c.3));
+        out.extend(failing.into_iter().enumerate().filter(|(i, (nd, _, nfail, _))| *nfail == 1 && (*nd == 2 || i % 8 == pick)).map(|(_, c)| c.3));
     } else {
         out.extend(failing.into_iter().map(|c| c.3));
     }
